@@ -3,7 +3,6 @@ package main
 import (
 	"fmt"
 	"reflect"
-	"sort"
 	"strings"
 	"sync"
 	"sync/atomic"
@@ -108,9 +107,14 @@ func genConcOnce(r *rng, idx int, st stats) caseOut {
 
 // stream concshare (C12): goroutines share the target, the converter Funcs
 // and the SAME option values; each outcome must be one a sequential run of
-// the same call can produce.
+// the same call can produce.  Variants: (0) identical calls, some goroutines
+// Redefine with the same shared options meanwhile (C09: planning disturbs
+// nobody); (1) every goroutine supplies its OWN value for one of the inputs
+// and must get the outcome of its own values; (2) the shared target is a
+// function returned by Redefine, every goroutine passes its own value for
+// one declared input.
 func genConcShare(r *rng, idx int, st stats) caseOut {
-	c := &gctx{r: r, sc: &Scenario{}, nextFid: 1, serial: 10, st: st}
+	c := &gctx{r: r, sc: &Scenario{}, nextFid: 1, serial: 10, st: st, noExtra: true}
 	genCallScenario(c, []int{0, 0, 1}[r.intn(3)])
 	for _, d := range c.sc.Funcs {
 		d.Once = false // run-once functions are the subject of C11
@@ -135,7 +139,6 @@ func genConcShare(r *rng, idx int, st stats) caseOut {
 			panic(err)
 		}
 	}
-	shared := append([]am.Arg{nullLog}, rt.goOpts(op.Opts)...)
 	sig := func(res am.Result) string {
 		e := res.Err()
 		if e == nil {
@@ -151,11 +154,93 @@ func genConcShare(r *rng, idx int, st stats) caseOut {
 		}
 		return cl
 	}
-	seq := map[string]bool{}
-	for i := 0; i < 25; i++ {
-		seq[sig(f.Call(shared...))] = true
+	variant := r.intn(3)
+	// the option whose value differs per goroutine (variants 1 and 2)
+	own := -1
+	for i, o := range op.Opts {
+		if (o.Kind == "named" || o.Kind == "typed" || o.Kind == "namedsub" || o.Kind == "typedsub") && len(o.Vals) == 1 && o.Vals[0] != nil {
+			own = i
+			break
+		}
 	}
+	if own < 0 {
+		variant = 0
+	}
+	optsFor := func(g int) []Opt {
+		if variant == 0 {
+			return op.Opts
+		}
+		os := append([]Opt(nil), op.Opts...)
+		o := os[own]
+		o.Vals = []*Val{{Serial: 7000 + g, Ty: o.Vals[0].Ty}}
+		os[own] = o
+		return os
+	}
+	target := f
+	ownArg := func(g int) []am.Arg { return nil }
+	var sharedOpts []Opt
+	switch variant {
+	case 0:
+		sharedOpts = op.Opts
+	case 1:
+		sharedOpts = nil
+	case 2:
+		// Redefine without the chosen value: it becomes a declared input
+		rest := append(append([]Opt(nil), op.Opts[:own]...), op.Opts[own+1:]...)
+		nf, err := f.Redefine(append([]am.Arg{nullLog}, rt.goOpts(rest)...)...)
+		if err != nil || len(nf.Input().Values()) == 0 {
+			variant = 1
+			break
+		}
+		target = nf
+		ownArg = func(g int) []am.Arg {
+			var as []am.Arg
+			for i, v := range nf.Input().Values() {
+				tid := tidOfType[v.Type]
+				if cc, ok := carrier[tid]; ok {
+					tid = cc
+				}
+				x := mkVal(tid, 7000+10*g+i).Interface()
+				if v.Name != "" && tidOfType[v.Type] == tid {
+					as = append(as, am.Named(v.Name, x))
+				} else {
+					as = append(as, am.Typed(x))
+				}
+			}
+			return as
+		}
+	}
+	argsFor := func(g int) []am.Arg {
+		switch variant {
+		case 0:
+			return nil // the shared slice is used
+		case 1:
+			return append([]am.Arg{nullLog}, rt.goOpts(optsFor(g))...)
+		default:
+			return append([]am.Arg{nullLog}, ownArg(g)...)
+		}
+	}
+	shared := append([]am.Arg{nullLog}, rt.goOpts(sharedOpts)...)
 	k := 2 + r.intn(7)
+	// sequential outcomes, per goroutine's own arguments
+	seq := make([]map[string]bool, k)
+	seqRun := func(g, n int) {
+		for i := 0; i < n; i++ {
+			if variant == 0 {
+				seq[g][sig(target.Call(shared...))] = true
+			} else {
+				seq[g][sig(target.Call(argsFor(g)...))] = true
+			}
+		}
+	}
+	for g := 0; g < k; g++ {
+		seq[g] = map[string]bool{}
+		if variant == 0 && g > 0 {
+			seq[g] = seq[0]
+			continue
+		}
+		seqRun(g, 25)
+	}
 	got := make([][]string, k)
 	var wg sync.WaitGroup
 	for g := 0; g < k; g++ {
@@ -163,42 +248,44 @@ func genConcShare(r *rng, idx int, st stats) caseOut {
 		go func(g int) {
 			defer wg.Done()
 			for j := 0; j < 6; j++ {
-				// every goroutine also passes its own extra option: shared defaults must not leak it
-				extra := am.Named("zz", fmt.Sprint("goroutine ", g)) // a string: no function of the universe takes one
-				got[g] = append(got[g], sig(f.Call(append(shared[:len(shared):len(shared)], extra)...)))
+				switch {
+				case variant == 0 && g%3 == 2 && j%2 == 0:
+					// planning with the same shared options must disturb nobody
+					f.Redefine(shared...)
+				case variant == 0:
+					// every goroutine also passes its own extra option: shared defaults must not leak it
+					extra := am.Named("zz", fmt.Sprint("goroutine ", g)) // a string: no function of the universe takes one
+					got[g] = append(got[g], sig(target.Call(append(shared[:len(shared):len(shared)], extra)...)))
+				default:
+					got[g] = append(got[g], sig(target.Call(argsFor(g)...)))
+				}
 			}
 		}(g)
 	}
 	wg.Wait()
 	ok := true
-	var odd []string
 	for g := range got {
+		var odd []string
 		for _, s := range got[g] {
-			if !seq[s] {
+			if !seq[g][s] {
 				odd = append(odd, s)
 			}
 		}
-	}
-	if len(odd) > 0 {
-		// be sure it is not just a rare sequential outcome
-		for i := 0; i < 300; i++ {
-			seq[sig(f.Call(shared...))] = true
-		}
-		for _, s := range odd {
-			if !seq[s] {
-				ok = false
+		if len(odd) > 0 {
+			// be sure it is not just a rare sequential outcome
+			seqRun(g, 300)
+			for _, s := range odd {
+				if !seq[g][s] {
+					ok = false
+				}
 			}
 		}
 	}
-	keys := make([]string, 0, len(seq))
-	for s := range seq {
-		keys = append(keys, s)
-	}
-	sort.Strings(keys)
 	st.inc(fmt.Sprintf("concshare.k=%d", k))
-	st.inc(fmt.Sprintf("concshare.seq_outcomes=%d", len(seq)))
+	st.inc(fmt.Sprintf("concshare.variant=%d", variant))
+	st.inc(fmt.Sprintf("concshare.seq_outcomes=%d", len(seq[0])))
 	term := fmt.Sprintf("(%s, %s, %s)", z(1), boolc(ok), z(k))
-	text := fmt.Sprintf("concshare k=%d %s", k, scenarioText(c.sc))
+	text := fmt.Sprintf("concshare k=%d variant=%d %s", k, variant, scenarioText(c.sc))
 	return caseOut{Term: term, Text: text, Hash: text, Trivial: len(c.sc.Funcs) < 2, Category: "concshare"}
 }
 
